@@ -142,6 +142,8 @@ CHECKS = {
 }
 
 NOT_YET = {}
+FUZZ_QUICK = {"C03", "C05", "C06", "C07"}
+NO_FUZZ = {"C01", "C09"}      # seconds per case: the libFuzzer campaign would make a few hundred executions
 
 
 def main():
@@ -152,6 +154,12 @@ def main():
         pid = p["id"]
         if pid in CHECKS:
             tech, text, note, ref = CHECKS[pid]
+            if pid in ("C03", "C05", "C07"):
+                tech += "; Hypothesis rule-based state machine over one Brownian object as a second engine"
+            if pid in FUZZ_QUICK:
+                tech += "; coverage-guided atheris/libFuzzer campaign over the same strategy and oracle (quick and thorough tiers)"
+            elif pid not in NO_FUZZ:
+                tech += "; coverage-guided atheris/libFuzzer campaign over the same strategy and oracle (thorough tier)"
             checks.append({
                 "property_id": pid,
                 "quick_cmd": f"./check {pid} --tier quick",
@@ -191,7 +199,19 @@ def main():
             "serves_properties": sorted(CHECKS),
             "kind_free_text": "Hypothesis 6.168 generators (plain-data cases, op-list histories) driven by vp/runner.py: "
                               "seeded by VERIF_SEED, sharded over processes, collect-then-shrink with failure "
-                              "bucketing, JSON replays, measured evidence",
+                              "bucketing, JSON replays, measured evidence; every failure is confirmed by replay in a "
+                              "fresh process before it is reported",
+        }, {
+            "name": "vp-statemachine", "path": "vp/machine.py", "serves_properties": ["C03", "C05", "C07"],
+            "kind_free_text": "Hypothesis RuleBasedStateMachine over one Brownian object (bundles of end points and earlier "
+                              "queries; invariants after every step); runs from the finalize hook of the three checks",
+        }, {
+            "name": "vp-atheris", "path": "vp/fuzz.py",
+            "serves_properties": sorted(set(CHECKS) - NO_FUZZ),
+            "kind_free_text": "atheris 3.1 / libFuzzer over hypothesis.fuzz_one_input of the property's own strategy with the "
+                              "property's own run_case oracle inside the target; coverage from the instrumented torchsde "
+                              "package; K processes with seeds derived from VERIF_SEED, fresh corpora; failing cases are "
+                              "saved as ordinary JSON replays and re-evaluated uninstrumented",
         }],
         "checks": checks,
         "not_applicable": na,
